@@ -156,7 +156,8 @@ def check_case(case):
             for w in wins:
                 for s in steps:
                     for typ in TYPES:
-                        for ws in (range(1, 7) if typ == "LC" else (3,)):
+                        # LC: every word size; WF and LZW ignore it (same answer for 1 and 6 as for 3, checked at one step size)
+                        for ws in (range(1, 7) if typ == "LC" else ((3, 1, 6) if s == 1 and w <= 6 else (3,))):
                             calls += check_call(seq, typ, size, ua_name, ua, w, s, ws, case, out, shared)
             if case.get("medium"):
                 # the entropy measure at EVERY window length of a medium-size word (steps 1 and 5)
@@ -421,4 +422,5 @@ def opt_shards(tier):
 
 
 def replay(case):
-    return check_case(case)[0]
+    with core.istate(case.get("seq", case["kind"])):       # the same interpreter state as in the exploration
+        return check_case(case)[0]
